@@ -448,10 +448,24 @@ func (h *H) rebuildEquivalence(m *Mon, path string) {
 	}
 	origDump := fix.DumpDB(orig)
 	origIdxK, origIdxV := fix.RawBucket(orig, "unspent_pool_addr_index")
+	metaK, metaV := fix.RawBucket(orig, "unspent_meta")
 	orig.Close()
+	defer func() {
+		// remember this state of the index for a later rebuild (mode 3)
+		for i := range metaK {
+			if string(metaK[i]) == "addr_index_height" {
+				m.oldIdxK, m.oldIdxV, m.oldIdxH = origIdxK, origIdxV, metaV[i]
+			}
+		}
+	}()
 
-	// which derived data to drop: the address index, the history, or both
+	// which derived data to drop: the address index, the history, or both; or (3) put the address
+	// index back to an earlier state of this node (rows and recorded height of that time: an
+	// index that is behind the head, as after running an older binary for a while)
 	mode := h.Rng.Intn(3)
+	if m.oldIdxH != nil && h.Rng.Intn(2) == 0 {
+		mode = 3
+	}
 	bdb, err := bolt.Open(cp, 0600, nil)
 	if err != nil {
 		h.Anomaly("open-copy", err.Error())
@@ -467,6 +481,21 @@ func (h *H) rebuildEquivalence(m *Mon, path string) {
 			del("unspent_pool_addr_index")
 			if b := tx.Bucket([]byte("unspent_meta")); b != nil {
 				_ = b.Delete([]byte("addr_index_height"))
+			}
+		}
+		if mode == 3 {
+			del("unspent_pool_addr_index")
+			b, err := tx.CreateBucket([]byte("unspent_pool_addr_index"))
+			if err != nil {
+				return err
+			}
+			for i := range m.oldIdxK {
+				if err := b.Put(m.oldIdxK[i], m.oldIdxV[i]); err != nil {
+					return err
+				}
+			}
+			if mb := tx.Bucket([]byte("unspent_meta")); mb != nil {
+				_ = mb.Put([]byte("addr_index_height"), m.oldIdxH)
 			}
 		}
 		if mode == 1 || mode == 2 {
